@@ -27,7 +27,9 @@ import common
 RULE = ("cases = (method, plan, dialogue cut, fault schedule, pre-existing foreign configuration): plans vary the "
         "families present, DNS servers, excludes/port ranges, user/group, udp, resolvectl; every plan is run "
         "fault-free, cut after every line and inside lines, with STARTED unwritable, with every single k-th "
-        "external command failing (k over the whole run, learnt from the fault-free run), with foreign chains/"
+        "external command failing (k over the whole run, learnt from the fault-free run) -- once with a non-zero "
+        "exit status and once by OSError EAGAIN/ENOENT raised at the subprocess boundary (the process cannot be "
+        "spawned) --, with foreign chains/"
         "rules and a second instance on another port present before or arriving during the session; plus signal "
         "sequences (SIGHUP/SIGPIPE/SIGINT/SIGTERM, repeated) delivered to a real helper process after STARTED "
         "before the control channel closes; a case is "
@@ -50,7 +52,9 @@ MANIFEST = dict(
                 "sequences, partial states included, against real iptables/ip6tables/nft in a network namespace); the "
                 "harness fakes at the subprocess boundary. Theorems cover nat only; tproxy/nft are covered by the "
                 "exhaustive differential run and the oracle. tproxy holds for the repaired code "
-                "(fix commit a1baf82). Tear-down faults: checked by the oracle (other family "
+                "(fix commit a1baf82). Commands that cannot be spawned (OSError instead of an exit "
+                "status) are outside the code model and the theorems: every index of set-up and tear-down is injected on "
+                "the real code and decided by the oracle. Tear-down faults: checked by the oracle (other family "
                 "still restored, foreign part untouched, later session starts), not proved. pf: modelled in Lean "
                 "(unvalidated, from the manual pages), not yet driven by the harness. Signals: not a theorem; decided on a real "
                 "helper process on every run (real setup_daemon handlers, file-backed packet filter): SIGHUP/SIGPIPE ignored, "
@@ -62,7 +66,7 @@ MANIFEST = dict(
 DRIVER_TARGETS = ['SshuttleModel.Code.FwSession', 'SshuttleModel.Spec.FwOwned']
 ASSUMPTIONS = [
     "iptables/ip6tables/nft behave as Env/FwState.lean says (natural failures; a failing command has no effect)",
-    "an injected fault makes the command exit non-zero without any effect",
+    "an injected fault makes the command exit non-zero, or makes subprocess raise OSError, without any effect",
     "hosts-file operations succeed (file-system faults belong to C14)",
     "the helper is not SIGKILLed; finally blocks run for every Python exception",
     "pf: semantics taken from the pfctl manual pages, never executed here",
@@ -101,6 +105,7 @@ class PyEnv:
                        skip=bool(p.get('skip')), main=[], anch=[])
         self.count = 0
         self.faults = set()
+        self.spawn_faults = {}   # command index -> errno name: the process cannot be started at all
         self.log = []
 
     # ---- parsing
@@ -338,6 +343,9 @@ class PyEnv:
         if not foreign:
             idx = self.count
             self.count += 1
+            if idx in self.spawn_faults:
+                self.log.append((list(argv), False))
+                raise SpawnFault(self.spawn_faults[idx])
             if idx in self.faults:
                 self.log.append((list(argv), False))
                 return 1, '', ''
@@ -418,6 +426,14 @@ class Mismatch(Exception):
     pass
 
 
+class SpawnFault(Exception):
+    """PyEnv's way of saying: this command could not be spawned (errno name); no effect."""
+
+    def __init__(self, name):
+        Exception.__init__(self, name)
+        self.name = name
+
+
 class Router:
     """Where every external command of the real code goes: PyEnv, and the Lean Env in lock-step."""
 
@@ -429,9 +445,23 @@ class Router:
         self.foreign_log = []    # foreign commands, in order
         self.undo_at = None      # command count when the finally block started
 
+    def spawn_pending(self):
+        return (not self.foreign) and self.py.count in self.py.spawn_faults
+
     def run(self, argv, stdin=b''):
         argv = [a.decode('latin-1') if isinstance(a, bytes) else str(a) for a in argv]
-        rc, out, err = self.py.run(argv, stdin, foreign=self.foreign)
+        try:
+            rc, out, err = self.py.run(argv, stdin, foreign=self.foreign)
+        except SpawnFault as sf:
+            if self.lean is not None:
+                # the Lean Env has the same index in its schedule: a failing command without effect
+                toks = ' '.join(hexs(a) for a in argv)
+                ans = self.lean.ask(('xin %s %s' % (hexs(stdin), toks)) if stdin else 'x ' + toks)[0]
+                if ans != 'rc=1 out=- err=-':
+                    raise Mismatch('command %r (spawn fault): Lean Env says %s' % (argv, ans))
+            import errno as _errno
+            code = getattr(_errno, sf.name)
+            raise OSError(code, os.strerror(code), argv[0])
         if self.foreign:
             self.foreign_log.append(argv)
         if self.lean is not None:
@@ -472,6 +502,8 @@ class FakeSub:
 
     def Popen(self, argv, stdin=None, stdout=None, stderr=None, env=None):
         router = self.router
+        if router.spawn_pending():
+            router.run(argv, b'')      # raises OSError, as subprocess.Popen() does when fork/exec fails
 
         class P:
             returncode = None
@@ -559,9 +591,12 @@ class Sandbox:
         self.patch(pf, 'pf', pf.pf)
         self.saved_ctx = dict(pf._pf_context)
 
-    # FakeSub calls self.run
+    # FakeSub calls self.run / self.spawn_pending
     def run(self, argv, stdin=b''):
         return self.router.run(argv, stdin)
+
+    def spawn_pending(self):
+        return self.router.spawn_pending()
 
     def patch(self, mod, name, val):
         self.saved.append((mod, name, getattr(mod, name)))
@@ -770,7 +805,7 @@ class Case:
     """(method, dialogue chunks, faults, prelude, flags) — JSON-able, replayable."""
 
     def __init__(self, method, chunks, faults=(), prelude=(), resolvectl=False, started_fails=False,
-                 pfinit=None, second=None, ports=(), pfrules=None):
+                 pfinit=None, second=None, ports=(), pfrules=None, spawn=None):
         self.method = method
         self.chunks = [c if isinstance(c, bytes) else c.encode('ASCII') for c in chunks]
         self.faults = sorted(faults)
@@ -781,16 +816,23 @@ class Case:
         self.second = second      # None | dict(port=q, when='before'|'during'|'during-gone')
         self.ports = list(ports)  # our ports (v6, v4)
         self.pfrules = pfrules
+        # {command index: 'EAGAIN' | 'ENOENT'}: the command raises OSError from the subprocess boundary
+        self.spawn = dict((int(k), v) for k, v in (spawn or {}).items())
+
+    def fault_indices(self):
+        return sorted(set(self.faults) | set(self.spawn))
 
     def to_json(self):
         return dict(method=self.method, dialogue=[c.decode('ASCII') for c in self.chunks], faults=self.faults,
                     prelude=self.prelude, resolvectl=self.resolvectl, started_fails=self.started_fails,
-                    pfinit=self.pfinit, second=self.second, ports=self.ports)
+                    pfinit=self.pfinit, second=self.second, ports=self.ports,
+                    spawn=dict((str(k), v) for k, v in sorted(self.spawn.items())))
 
     @staticmethod
     def from_json(d):
         return Case(d['method'], d['dialogue'], d.get('faults', ()), d.get('prelude', ()), d.get('resolvectl', False),
-                    d.get('started_fails', False), d.get('pfinit'), d.get('second'), d.get('ports', ()))
+                    d.get('started_fails', False), d.get('pfinit'), d.get('second'), d.get('ports', ()),
+                    spawn=d.get('spawn'))
 
 
 def second_instance(box, method, q, action):
@@ -842,12 +884,13 @@ def execute(box, case, lean=None, faults=None):
     o.s0_pretty = py.pretty()
     o.foreign0 = py.foreign_view(case.ports)
     py.faults = set(case.faults if faults is None else faults)
+    py.spawn_faults = dict(case.spawn)
     py.count = 0
     py.log = []
     if lean is not None:
         if lean.ask('state')[0] != o.s0:
             raise Mismatch('initial configuration differs between PyEnv and Lean Env')
-        lean.ask('fault ' + ' '.join(str(k) for k in sorted(py.faults)))
+        lean.ask('fault ' + ' '.join(str(k) for k in sorted(py.faults | set(py.spawn_faults))))
     box.write_hosts(HOSTS0)
     hooks = {}
     expected_extra = None
@@ -937,6 +980,7 @@ def later_session(box, case, py_after):
     router = Router(py, None)
     box.router = router
     py.faults = set()
+    py.spawn_faults = {}
     py.count = 0
     py.log = []
     box.write_hosts(HOSTS0)
@@ -948,19 +992,22 @@ def later_session(box, case, py_after):
 def check_oracle(ctx, box, case, o, full_ncmd=None):
     """The property on what the real code did.  Returns list of (key, expected, observed, note)."""
     bad = []
-    setup_fault = bool(case.faults) and (o.undo_at is None or min(case.faults) < o.undo_at)
-    teardown_fault = bool(case.faults) and not setup_fault and min(case.faults) < o.ncmd
+    fi = case.fault_indices()
+    setup_fault = bool(fi) and (o.undo_at is None or min(fi) < o.undo_at)
+    teardown_fault = bool(fi) and not setup_fault and min(fi) < o.ncmd
     m = case.method
+    # fault = non-zero exit status; spawn-error = OSError raised at the subprocess boundary
+    tag = 'spawn-error' if case.spawn else 'fault'
     if o.hosts != HOSTS0:
         bad.append(('C04:hosts-file-not-restored', HOSTS0, o.hosts, 'hosts file differs after the session'))
     if not teardown_fault:
         if o.final != o.expected_final:
             if m.startswith('pf'):
                 key = 'C04:pf:main-ruleset-or-module-not-restored'
-            elif m == 'tproxy' and setup_fault:
+            elif m == 'tproxy' and setup_fault and not case.spawn:
                 key = 'C04:tproxy:setup-fault:teardown-aborts'
             elif setup_fault:
-                key = 'C04:%s:setup-fault:not-undone' % m
+                key = 'C04:%s:setup-%s:not-undone' % (m, tag)
             elif case.second:
                 key = 'C04:%s:foreign-instance-disturbed' % m
             else:
@@ -968,11 +1015,11 @@ def check_oracle(ctx, box, case, o, full_ncmd=None):
             bad.append((key, o.expected_final, o.final, 'configuration after the session differs from before'))
     else:
         if o.foreign1 != o.foreign0:
-            bad.append(('C04:%s:teardown-fault:foreign-touched' % m, o.foreign0, o.foreign1,
+            bad.append(('C04:%s:teardown-%s:foreign-touched' % (m, tag), o.foreign0, o.foreign1,
                         'a tear-down fault changed configuration that is not ours'))
         # the other family's tear-down still ran: nothing of ours is left in the family the
         # failing command does not belong to
-        kk = min(case.faults)
+        kk = min(fi)
         argv = o.log[kk][0] if kk < len(o.log) else []
         fam = None
         if argv and argv[0] in ('iptables', 'ip6tables'):
@@ -986,21 +1033,21 @@ def check_oracle(ctx, box, case, o, full_ncmd=None):
             dirty += [t[0] for t in o.py.nft if re.match(r'^sshuttle-ip%s-\d+$' % other, t[0])
                       and any(t[0].endswith('-%d' % p) for p in case.ports)]
             if dirty:
-                bad.append(('C04:%s:teardown-fault:other-family-not-restored' % m, 'nothing of ours left in ' + other,
+                bad.append(('C04:%s:teardown-%s:other-family-not-restored' % (m, tag), 'nothing of ours left in ' + other,
                             'left in %s: %s' % (other, ', '.join(dirty)),
                             'a failing %s tear-down command prevented the %s tear-down' % (fam, other)))
         # a later session on the same port must be able to start, and must not leave more
         left = o.final
         ex, started, before, after = later_session(box, case, o.py)
         if not started:
-            key = 'C04:%s:teardown-fault:port-unusable' % m
+            key = 'C04:%s:teardown-%s:port-unusable' % (m, tag)
             bad.append((key, 'later session reaches STARTED', 'exit=%s started=%s' % (ex, started),
                         'after a tear-down fault a later session on the same port cannot start'))
         elif after not in (o.s0, left):
             if m.startswith('pf'):
                 key = 'C04:pf:main-ruleset-or-module-not-restored'
             else:
-                key = 'C04:%s:teardown-fault:later-session-leaves-more' % m
+                key = 'C04:%s:teardown-%s:later-session-leaves-more' % (m, tag)
             bad.append((key, 'configuration == initial or == what the failed tear-down left', after,
                         'later session after a tear-down fault'))
     return bad, ('setup' if setup_fault else 'teardown' if teardown_fault else 'none')
@@ -1080,9 +1127,9 @@ def cuts_of(lines):
     return out
 
 
-def mk_case(plan, chunks, faults=(), prelude=(), started_fails=False, second=None, pfinit=None):
+def mk_case(plan, chunks, faults=(), prelude=(), started_fails=False, second=None, pfinit=None, spawn=None):
     c = Case(plan.method, chunks, faults, prelude, plan.resolvectl, started_fails, pfinit, second,
-             ports=sorted(set([plan.p6, plan.p4])))
+             ports=sorted(set([plan.p6, plan.p4])), spawn=spawn)
     c.full_chunks = [l.encode('ASCII') for l in plan.lines() if l.strip() not in ('FROBNICATE', 'HOST nocomma', '')]
     fam_has_subnets = {'v6': any(r[0] == 10 for r in plan.routes), 'v4': any(r[0] == 2 for r in plan.routes)}
     c.fam_has_subnets = fam_has_subnets
@@ -1120,7 +1167,7 @@ def report(ctx, case, key, expected, observed, note, o):
                   expected=expected if len(expected) < 400 else 'configuration before the session: ' + ' || '.join(o.s0_pretty),
                   observed=observed if len(observed) < 400 else 'configuration after: ' + ' || '.join(o.final_pretty),
                   note=note + ('; exit=%s, commands=%d, finally began at command %s' % (o.exit, o.ncmd, o.undo_at)),
-                  kind='faults' if case.faults else 'ops')
+                  kind='faults' if case.fault_indices() else 'ops')
 
 
 def run_plan(ctx, box, lean, plan, budget):
@@ -1148,6 +1195,11 @@ def run_plan(ctx, box, lean, plan, budget):
         ks = sorted(ctx.rng.sample(ks, budget))
     for k in ks:
         do(mk_case(plan, lines, faults=[k]))
+    # every k-th command cannot be spawned at all: OSError (EAGAIN from fork / ENOENT from exec) raised at
+    # the subprocess boundary instead of an exit status -- set-up and tear-down, both families
+    for k in ks:
+        for en in (('EAGAIN', 'ENOENT') if ctx.thorough else (('EAGAIN', 'ENOENT')[k % 2],)):
+            do(mk_case(plan, lines, spawn={k: en}))
     # foreign configuration present before; second instance before / during
     do(mk_case(plan, lines, prelude=FOREIGN_PRELUDE))
     if not plan.method.startswith('pf'):
@@ -1157,18 +1209,23 @@ def run_plan(ctx, box, lean, plan, budget):
         # faults with foreign configuration and a second instance present
         for k in (ks if ctx.thorough else ks[::5]):
             do(mk_case(plan, lines, faults=[k], prelude=FOREIGN_PRELUDE, second=dict(port=q, when='before')))
+        for k in (ks if ctx.thorough else ks[2::7]):
+            do(mk_case(plan, lines, spawn={k: 'EAGAIN'}, prelude=FOREIGN_PRELUDE, second=dict(port=q, when='before')))
 
     for case, o in cases:
         ctx.count()
-        ctx.mark((case.method, case.chunks, case.faults, bool(case.prelude), case.second, case.started_fails), o.ncmd > 0)
+        ctx.mark((case.method, case.chunks, case.faults, sorted(case.spawn.items()), bool(case.prelude), case.second,
+                  case.started_fails), o.ncmd > 0)
         bad, phase = check_oracle(ctx, box, case, o)
-        ctx.hist('%s:fault-%s' % (plan.method, phase))
+        ctx.hist('%s:%s-%s' % (plan.method, 'spawn-error' if case.spawn else 'fault', phase))
         ctx.hist('exit:' + o.exit.split(':')[0])
         if o.ncmd == 0:
             ctx.hist('no-command-issued')
         for key, exp, obs, note in bad:
             report(ctx, case, key, exp, obs, note, o)
-        if not (case.second and case.second['when'].startswith('during')):
+        if not (case.second and case.second['when'].startswith('during')) and not case.spawn:
+            # (a command that cannot be spawned is outside the code model: those cases are decided by the
+            # oracle on the real code, with PyEnv and the Lean Env still cross-checked command by command)
             compare_model(ctx, lean, case, body, o)
     return cases
 
@@ -1510,7 +1567,7 @@ def validate_env_in_netns(ctx, samples):
     for case, o in samples:
         lines = []
         for i, (argv, ok) in enumerate(o.log):
-            if i in case.faults or argv[0] == 'resolvectl':
+            if i in case.fault_indices() or argv[0] == 'resolvectl':
                 lines.append('echo rc=skip')
             else:
                 lines.append('%s >/dev/null 2>&1; echo rc=$?' % ' '.join(shlex.quote(a) for a in argv))
